@@ -237,11 +237,23 @@ func c10CheckInst(c *core.Ctx, w *World, in *Inst, f *rm.Forest, when string, af
 			where := "inside-rows"
 			if p >= top-1 {
 				where = "above-top"
-			} else if r, k := rm.OffsetOf(p, f.H); (k<<r) >= f.N {
+			} else if r, k := rm.OffsetOf(p, f.H); (k << r) >= f.N {
 				where = "beyond-leaf-count"
 			}
 			if in.MP != nil && in.MP.TotalRows > f.H {
+				// Recorded finding D8: with spare allocated rows GetHash pushes a position above
+				// the forest top through its height translation, which for such a position lands
+				// on some stored node.  The finding is identified by its exact input/output
+				// relation: the answer must be the hash stored at the position that the
+				// library's ORIGINAL translation (d8Alias, a transcript of it) maps p to.  Any
+				// other non-zero answer is a different violation and is reported.
 				where += ",alloc-rows>tree-rows"
+				if where == "above-top,alloc-rows>tree-rows" {
+					leaf, _ := in.MP.Nodes.Get(d8Alias(p, f.H, in.MP.TotalRows))
+					if leaf.Hash != got {
+						where = "above-top,not-the-recorded-alias"
+					}
+				}
 			}
 			c.ViolateContinue(kind+".GetHash", "nonzero-for-absent-position", joinTrig(trig, where), fmt.Sprintf("%s: GetHash(%d)=%s but no node sits there (%s)", desc, p, hs(got), where))
 		}
@@ -252,6 +264,22 @@ func c10CheckInst(c *core.Ctx, w *World, in *Inst, f *rm.Forest, when string, af
 	if c.WantSample("lookup") && len(w.M.Leaves) > 3 {
 		c.Sample("lookup", map[string]any{"when": when, "instance": in.Name, "alive": aliveStr(w.M.Alive), "tracked": nTracked, "positions_read": len(positions)})
 	}
+}
+
+// d8Alias transcribes the unchanged library's translatePos(pos, from, to) (utils.go at the
+// pinned commit), including its behaviour for positions outside the 'from' geometry; it is used
+// only to recognise the recorded finding D8 by its exact input/output relation.
+func d8Alias(pos uint64, from, to uint8) uint64 {
+	marker := uint64(1 << from)
+	var row uint8
+	for row = 0; pos&marker != 0; row++ {
+		marker >>= 1
+	}
+	if row == 0 {
+		return pos
+	}
+	start := func(r, rows uint8) uint64 { return uint64(2<<rows) - (2 << (rows - r)) }
+	return pos - start(row, from) + start(row, to)
 }
 
 var _ = rand.Int
